@@ -16,6 +16,13 @@ Sandbox (the model calls the root `/S`):
   /S/instance/stages/stage0/producer/out.txt       working directory of a producer component (link-staged input)
   /S/pkg/{wf.yaml, src1/f, src2/f, file.txt}       package + manifest sources (must never change)
   /S/inst/new.instance                             instance directory (deployment target)
+  /S/inst/new.instance-shared, new.instance.bak, new.instance2, new.inst, new
+                                                   siblings of the instance directory whose NAME extends it / is a
+                                                   prefix of it (a textual prefix test without the separator takes
+                                                   them for "beneath"): link sources of manifest entries
+  /S/instance/stages/stage0/comp-x, compx, comp.bak, com
+                                                   the same next to the working directory: absolute member names
+                                                   and link targets of archives
 The real root is 9 directories below the mkdtemp so that even the escapes of the committed code stay inside it;
 additionally every generated case is first run through the model of *unchecked* extraction (the committed
 algorithm; the driver goes on after members that fail, `looseExtract`) and dropped when its write log leaves /S.
@@ -51,6 +58,11 @@ WD = "instance/stages/stage0/comp"
 INST = "inst/new.instance"
 PRODUCER = "instance/stages/stage0/producer"
 NAMES = ["a", "b", "c", "d", "keep.txt", "sub", "x.txt", "l"]
+# siblings whose name has the target's name as a proper prefix (and one that is a proper prefix of it)
+SIB_SUFFIXES = ["-x", "x", ".bak"]
+WD_SIBLINGS = [WD + s for s in SIB_SUFFIXES] + [WD[:-1]]
+INST_SIB_SUFFIXES = ["-shared", ".bak", "2"]
+INST_SIBLINGS = [INST + s for s in INST_SIB_SUFFIXES] + ["inst/new.inst", "inst/new"]
 
 
 # ----------------------------------------------------------------------------------------
@@ -104,6 +116,10 @@ class Sandbox:
         r = self.root
         for d in ("outside/dir", "instance/data/d1", PRODUCER, WD, "pkg/src1", "pkg/src2", INST):
             os.makedirs(os.path.join(r, d))
+        for d in WD_SIBLINGS + INST_SIBLINGS:
+            os.makedirs(os.path.join(r, d, "sub"))
+            with open(os.path.join(r, d, "keep.txt"), "w") as fh:
+                fh.write("sibling")
         for f, c in (("outside/victim.txt", "victim"), ("outside/dir/keep.txt", "keep"), ("instance/data/f1.txt", "f1"),
                      ("instance/data/d1/f", "d1f"), (PRODUCER + "/out.txt", "out"), ("pkg/src1/f", "s1"), ("pkg/src2/f", "s2"),
                      ("pkg/file.txt", "pf"),
